@@ -215,12 +215,21 @@ def main():
             else:
                 disagreements.append((line, impl, model, origin))
 
+    def guarded_impl(line):
+        try:
+            signal.setitimer(signal.ITIMER_REAL, getattr(mod, "CASE_WALL", 30))
+            try:
+                return mod.run_impl(line)
+            finally:
+                signal.setitimer(signal.ITIMER_REAL, 0)
+        except WallTimeout:
+            return "wall-timeout"
+        except Exception as e:
+            return f"harness-exception/{type(e).__name__}/{str(e)[:80].replace(' ', '_')}"
+
     def still_bad(line):
         """predicate used while shrinking: same kind of failure persists"""
-        try:
-            impl = mod.run_impl(line)
-        except BaseException as e:
-            impl = f"harness-exception/{type(e).__name__}"
+        impl = guarded_impl(line)
         specs = [lean.ask(f"spec {sid} {spec_line(line)} || {impl}") for sid in mod.SPECS]
         if any(s == "bad-op" for s in specs) and not impl.startswith("harness"):
             return None
@@ -288,7 +297,7 @@ def main():
     if violations:
         line, impl, model, origin = violations[0]
         small = shrink(line) if lean is not None else line
-        impl_s = mod.run_impl(small) if small != line else impl
+        impl_s = guarded_impl(small) if small != line else impl
         model_s = lean.ask(model_request(small, impl_s)) if small != line else model
         rp = os.path.join("replays", f"{pid}-{args.seed}-spec.json")
         json.dump({"property": pid, "kind": "spec-violated-on-implementation", "case": small, "original_case": line,
@@ -307,7 +316,7 @@ def main():
             small = shrink(line)
             rec.update({"broken_correspondence": f"model {mod.KIND} vs implementation",
                         "case": small, "original_case": line, "origin": origin,
-                        "impl_obs": mod.run_impl(small), "model_obs": lean.ask(model_request(small, mod.run_impl(small))),
+                        "impl_obs": guarded_impl(small), "model_obs": lean.ask(model_request(small, guarded_impl(small))),
                         "n_disagreements": len(disagreements)})
         if lean is None or params is None:
             rec["broken_correspondence"] = "harness could not start (driver or parameter extraction failed)"
